@@ -453,6 +453,32 @@ fn run_field<F: FS>(ctx: &Arc<Ctx>) {
         );
         r.set(&format!("domain_montgomery_{}", F::NAME), json!({"patterns_a": na, "patterns_b": nb, "forms": nfs}));
     }
+    // 2c. boundary classes of limb-wise comparison / negation with p (values whose limbs equal
+    // p's above some position): every unary form, and every binary form against 4 partners
+    {
+        let cf: Vec<BigUint> = dedup(cmp_family(&p, n).into_iter().filter(|x| *x < p).chain(neg_family(&p, n)).collect());
+        let cf_f: Vec<F> = cf.iter().map(F::of).collect();
+        let (nc, nu) = (cf.len(), uforms.len());
+        run_cases(
+            ctx, "E3/C10-un-cmp-family", false,
+            (0..nc * nu).into_par_iter().map(|i| (F::NAME, i % nu, i / nu)),
+            |&(_, fi, ai)| eval_un(&fld, &uforms[fi], &cf[ai], cf_f[ai]),
+            |&(_, fi, ai)| (format!("{}|{}", F::NAME, uforms[fi].name), json!({"field": F::NAME, "kind": "un", "form": uforms[fi].name, "a": hexle(&cf[ai], n)})),
+        );
+        let part = [0usize, 1, 2, small.len() - 1];
+        run_cases(
+            ctx, "E3/C10-bin-cmp-family", false,
+            (0..nc * nf * part.len() * 2).into_par_iter().map(|i| (F::NAME, i % 2, (i / 2) % nf, (i / 2 / nf) % part.len(), i / 2 / nf / part.len())),
+            |&(_, swap, fi, pi, ai)| {
+                let (b, fb) = (&small[part[pi]], small_f[part[pi]]);
+                if swap == 0 { eval_bin(&fld, &bforms[fi], &cf[ai], cf_f[ai], b, fb, Some(&small_inv[part[pi]])) } else { eval_bin(&fld, &bforms[fi], b, fb, &cf[ai], cf_f[ai], None) }
+            },
+            |&(_, swap, fi, pi, ai)| {
+                let (a, b) = if swap == 0 { (&cf[ai], &small[part[pi]]) } else { (&small[part[pi]], &cf[ai]) };
+                (format!("{}|{}", F::NAME, bforms[fi].name), json!({"field": F::NAME, "kind": "bin", "form": bforms[fi].name, "a": hexle(a, n), "b": hexle(b, n)}))
+            },
+        );
+    }
     // 3. unary forms on S_small + S_limb
     let all: Vec<(&BigUint, F)> = small.iter().zip(small_f.iter().copied()).chain(limb.iter().zip(limb_f.iter().copied())).collect();
     let na = all.len();
